@@ -13,13 +13,23 @@ import (
 type StepRig struct {
 	EmuMem, RefMem mon.Mem
 	EmuIO, RefIO   mon.IO
-	CPU            z80.CPU
+	CPU            *z80.CPU
 	RC             mon.RetCounter
 	Ref            ref.CPU
 	fillSeed       uint64
 	NilIO          bool
 	Chained        bool // keep the CPU object across cases (see Run)
 	chainLive      bool
+
+	// Direct: additionally run the case on z80.DumbMemory (64 KiB) or a fully
+	// populated z80.MapMemory holding the same bytes, handed to the CPU without
+	// a monitor in between (type-specific fast paths become reachable)
+	Direct     int // 0 off, 1 DumbMemory, 2 MapMemory
+	dm         z80.DumbMemory
+	mm         z80.MapMemory
+	dTouched   [3][]uint16 // per mirror: addresses that may differ from the base image
+	DirectPost z80.States
+	DirectNote string
 }
 
 // BreakChain makes the next Run start with a fresh CPU object.
@@ -38,7 +48,86 @@ func (g *StepRig) Refill(seed uint64) {
 	g.fillSeed = seed
 	g.EmuMem.Fill(seed)
 	g.RefMem.Fill(seed)
+	// the mirrors are rebuilt from the new base on next use
+	g.dm, g.mm = nil, nil
+	g.dTouched = [3][]uint16{}
 }
+
+// directRun executes the case on the bundled memory type.  It is called when
+// EmuMem holds exactly the pre-image (base + placed bytes), before any Step.
+func (g *StepRig) directRun(c *StepCase) (post z80.States, halt bool, pan interface{}) {
+	full := false
+	if g.Direct == 1 && g.dm == nil {
+		g.dm = make(z80.DumbMemory, 65536)
+		full = true
+	}
+	if g.Direct == 2 && g.mm == nil {
+		g.mm = make(z80.MapMemory, 65536)
+		full = true
+	}
+	set := func(a uint16, v uint8) { g.dm[a] = v }
+	var mem z80.Memory = g.dm
+	if g.Direct == 2 {
+		set = func(a uint16, v uint8) { g.mm[a] = v }
+		mem = g.mm
+	}
+	if full {
+		for a := 0; a < 65536; a++ {
+			set(uint16(a), g.EmuMem.Data[a])
+		}
+	} else {
+		for _, a := range g.dTouched[g.Direct] {
+			set(a, g.EmuMem.Data[a])
+		}
+	}
+	g.dTouched[g.Direct] = g.dTouched[g.Direct][:0]
+	for k := range c.Bytes {
+		a := c.Pre.PC + uint16(k)
+		set(a, g.EmuMem.Data[a])
+		g.dTouched[g.Direct] = append(g.dTouched[g.Direct], a)
+	}
+	cpu := z80.CPU{States: c.Pre, Memory: mem, HALT: c.PreHALT}
+	if !c.NoHandlers {
+		var drc mon.RetCounter
+		cpu.RETNHandler, cpu.RETIHandler = drc.Handlers()
+	}
+	if !g.NilIO {
+		cpu.IO = &mon.IO{Seed: c.IOSeed}
+	}
+	func() {
+		defer func() { pan = recover() }()
+		cpu.Step()
+	}()
+	return cpu.States, cpu.HALT, pan
+}
+
+// directCompare compares the direct run with the monitored emulator run (same
+// code under test, only the memory's dynamic type differs).
+func (g *StepRig) directCompare(out *StepOutcome, post z80.States, halt bool, pan interface{}, mark int) {
+	get := func(a uint16) uint8 { return g.dm[a] }
+	if g.Direct == 2 {
+		get = func(a uint16) uint8 { return g.mm[a] }
+	}
+	g.DirectPost = post
+	g.DirectNote = ""
+	if pan != nil {
+		out.Bad |= BadDirect
+		g.DirectNote = fmt.Sprintf("panic: %v", pan)
+	} else if out.Bad&BadPanic == 0 && (post != out.Post || halt != out.PostHALT) {
+		out.Bad |= BadDirect
+		g.DirectNote = "registers differ from the run on the monitor memory"
+	}
+	for _, a := range g.EmuMem.Dirty(mark) {
+		g.dTouched[g.Direct] = append(g.dTouched[g.Direct], a)
+		if pan == nil && get(a) != g.EmuMem.Data[a] {
+			out.Bad |= BadDirect
+			g.DirectNote = fmt.Sprintf("memory at %04X differs from the run on the monitor memory", a)
+		}
+	}
+}
+
+var _ = fmt.Sprint
+
 
 // aspects that can disagree
 const (
@@ -50,13 +139,17 @@ const (
 	BadHandler             // RETN/RETI notifications
 	BadR                   // refresh register R
 	BadPanic               // emulator panicked
+	BadDirect              // outcome differs when a bundled memory type is handed to the CPU directly
 )
 
 // StepCase is one monitored Step.
 type StepCase struct {
-	Pre    z80.States
-	Bytes  []uint8 // placed at PC (wrapping)
-	IOSeed uint64
+	Pre     z80.States
+	Bytes   []uint8 // placed at PC (wrapping)
+	IOSeed  uint64
+	PreHALT bool // CPU.HALT already true before the Step (sticky flag; Step must behave the same)
+	NoHandlers bool // no RETN/RETI handler registered
+	MoveCPU    bool // chain mode: continue on a by-value copy of the CPU struct; the old struct is scribbled over
 }
 
 // StepOutcome is what the monitor observed.
@@ -89,14 +182,37 @@ func (g *StepRig) Run(c *StepCase) (out StepOutcome) {
 		// chain mode: the same CPU object keeps running (any unexported
 		// per-instance state it may hold is carried over); only the public
 		// halted indication is cleared, as Run does
+		if c.MoveCPU {
+			// a user may copy the CPU struct by value (fork, return by value):
+			// the copy must behave like the original even after the original's
+			// storage has been reused
+			n := new(z80.CPU)
+			*n = *g.CPU
+			*g.CPU = z80.CPU{}
+			g.CPU.States.IX, g.CPU.States.IY, g.CPU.States.SP = 0xdead, 0xbeef, 0x1234
+			g.CPU.States.BC.SetU16(0x6b6b)
+			g.CPU.States.DE.SetU16(0x5a5a)
+			g.CPU.States.HL.SetU16(0xa5a5)
+			g.CPU = n
+		}
 		g.CPU.HALT = false
 		g.CPU.States = c.Pre
 	} else {
-		g.CPU = z80.CPU{States: c.Pre, Memory: &g.EmuMem, RETNHandler: hn, RETIHandler: hi}
+		g.CPU = &z80.CPU{States: c.Pre, Memory: &g.EmuMem, RETNHandler: hn, RETIHandler: hi, HALT: c.PreHALT}
+		if c.NoHandlers {
+			g.CPU.RETNHandler, g.CPU.RETIHandler = nil, nil
+		}
 		if !g.NilIO {
 			g.CPU.IO = &g.EmuIO
 		}
 		g.chainLive = g.Chained
+	}
+
+	var dPost z80.States
+	var dHalt bool
+	var dPan interface{}
+	if g.Direct != 0 {
+		dPost, dHalt, dPan = g.directRun(c)
 	}
 
 	// reference first (it cannot panic on in-scope encodings)
@@ -119,6 +235,9 @@ func (g *StepRig) Run(c *StepCase) (out StepOutcome) {
 	}()
 	out.Post = g.CPU.States
 	out.PostHALT = g.CPU.HALT
+	if g.Direct != 0 {
+		g.directCompare(&out, dPost, dHalt, dPan, mark)
+	}
 	if out.Bad&BadPanic != 0 || !out.Info.InScope {
 		return out
 	}
@@ -135,7 +254,7 @@ func (g *StepRig) Run(c *StepCase) (out StepOutcome) {
 	p.IFF1, e.IFF1 = false, false
 	pr, er := p.IR.Lo, e.IR.Lo
 	p.IR.Lo, e.IR.Lo = 0, 0 // R is C14's subject; I stays in the comparison
-	if p != e || !fOK || !iffOK || out.PostHALT != info.Halt {
+	if p != e || !fOK || !iffOK || out.PostHALT != (info.Halt || c.PreHALT) {
 		out.Bad |= BadState
 	}
 	if !(pr == er || (info.RAlt && pr == inc7(er))) {
@@ -182,7 +301,10 @@ func (g *StepRig) Run(c *StepCase) (out StepOutcome) {
 	}
 
 	// --- handlers
-	if g.RC.RETN != g.Ref.RETN || g.RC.RETI != g.Ref.RETI {
+	if !c.NoHandlers && (g.RC.RETN != g.Ref.RETN || g.RC.RETI != g.Ref.RETI) {
+		out.Bad |= BadHandler
+	}
+	if c.NoHandlers && (g.RC.RETN != 0 || g.RC.RETI != 0) {
 		out.Bad |= BadHandler
 	}
 
@@ -218,6 +340,7 @@ func (g *StepRig) Witness(enc Encoding, c *StepCase, o *StepOutcome) map[string]
 		"emu_ports": DumpAccesses(g.EmuIO.Log),
 		"ref_ports": DumpAccesses(g.RefIO.Log),
 		"f_mask":    h8(o.Info.FMask),
+		"direct_memory_note": g.DirectNote,
 		"handlers":  fmt.Sprintf("emu RETN=%d RETI=%d ref RETN=%d RETI=%d", g.RC.RETN, g.RC.RETI, g.Ref.RETN, g.Ref.RETI),
 	}
 	if o.Info.HasAlt {
@@ -230,7 +353,7 @@ func (g *StepRig) Witness(enc Encoding, c *StepCase, o *StepOutcome) map[string]
 }
 
 func BadString(b int) string {
-	names := []string{"state", "memory", "port-out", "bus", "port-log", "handler", "refresh", "panic"}
+	names := []string{"state", "memory", "port-out", "bus", "port-log", "handler", "refresh", "panic", "bundled-memory-type"}
 	s := ""
 	for i, n := range names {
 		if b&(1<<uint(i)) != 0 {
